@@ -282,3 +282,6 @@ func Explore(preemptions int) {}
 
 // Yield is an explicit scheduling point.
 func Yield() { runtime.Gosched() }
+
+// CollisionFree switches on the collision-free idealisation of hash functions (engine only).
+func CollisionFree() {}
